@@ -78,9 +78,11 @@ Definition aread_int (buf : list Z) (rd kk : Z) : option (Z * Z) :=
 Definition kind_is_int (k : Z) : bool :=
   (k =? 5) || (k =? 3) || (k =? 15) || (k =? 16) || (k =? 18) || (k =? 17) || (k =? 13) || (k =? 4) || (k =? 7) || (k =? 6).
 
-(* TypeDescriptor.IsPacked(): decided by the element TYPE only *)
+(* TypeDescriptor.IsPacked(): a LIST of a numeric element type that is not declared [packed = false]
+   (repo commit 80a31e9; label 1 of the case format gives LRepeated (type_numeric t), label 2 LRepeated false).
+   The iterators of Node.Index / Indexes / List still decide by the element TYPE only (a_index, list_next callers). *)
 Definition desc_packed (lbl : flabel) (t : ftype) : bool :=
-  match lbl with LRepeated _ => type_numeric t | _ => false end.
+  match lbl with LRepeated p => p && type_numeric t | _ => false end.
 Definition elem_wt (t : ftype) : Z := wt_of_kind (kind_of_type t).
 
 (* ------------------------------------------------------------------ SkipAllElements *)
@@ -329,7 +331,7 @@ Fixpoint gbp_loop (fx : fixes) (S : schema) (buf : list Z) (p : list pstep) (rd 
     | PIndex i =>
       match lbl with
       | LRepeated _ =>
-        after buf (search_index fx buf rd i (elem_wt t) (type_numeric t) num) lbl t num (kind_of_type t)
+        after buf (search_index fx buf rd i (elem_wt t) (desc_packed lbl t) num) lbl t num (kind_of_type t)
       | _ => GUnmodelled
       end
     | PStrKey k =>
